@@ -8,6 +8,9 @@
 //	              + the "root-typed field" projects (rootrefs.go): fields whose type is Query / Mutation /
 //	                Subscription, every shape in both template flavours (method / function syntax)
 //	-mode typerefs real config.TypeReference predicates / Elem() chains on GraphQL type x bound Go type
+//	-mode pkgnames the package name the REAL Check() of the exec / model / resolver sections derives from the output
+//	              directory when `package:` is omitted, on really created directories (name x state), layouts.go;
+//	              -mode schemas -layouts writes the "project layout" projects c17l*
 //	-mode decls   go/parser over the files generated in -dir: declared identifiers by scope, and the schema
 //	              summary line for the Lean model's `emitted`
 //
@@ -32,7 +35,7 @@ func hx(s string) string {
 }
 
 func main() {
-	mode := flag.String("mode", "names", "names | schemas | gen | typerefs | decls")
+	mode := flag.String("mode", "names", "names | schemas | gen | typerefs | pkgnames | decls")
 	tier := flag.String("tier", "quick", "quick | thorough")
 	seed := flag.Uint64("seed", 1, "seed")
 	dir := flag.String("dir", "", "project directory (gen, decls)")
@@ -42,6 +45,8 @@ func main() {
 	withBindings := flag.Bool("bindings", false, "schemas: also write the bindings projects (c17b*)")
 	withRootRefs := flag.Bool("rootrefs", false, "schemas: also write the root-typed-field projects (c17t*)")
 	rootCorpus := flag.String("rootcorpus", "", "directed root-typed-field corpus (schemas, with -rootrefs)")
+	withLayouts := flag.Bool("layouts", false, "schemas: also write the project-layout projects (c17l*)")
+	layoutCorpus := flag.String("layoutcorpus", "", "directed project-layout corpus (schemas, with -layouts)")
 	flag.Parse()
 	defer out.Flush()
 	switch *mode {
@@ -55,8 +60,13 @@ func main() {
 		if *withRootRefs {
 			writeRootRefs(*outDir, *seed, *tier, *rootCorpus)
 		}
+		if *withLayouts {
+			writeLayouts(*outDir, *seed, *tier, *layoutCorpus)
+		}
 	case "typerefs":
 		runTypeRefs(*tier, *seed)
+	case "pkgnames":
+		runPkgNames(*tier, *seed)
 	case "gen":
 		code := runGen(*dir)
 		out.Flush()
